@@ -21,15 +21,15 @@ def build_instrumented(binary):
     if text.count('verifC16Point("Close", "cas")') < 1 or text.count('verifC16Point("Close", "load")') < 1:
         raise vlib.Broken("instrumentation of Tunnel.Close found no Load/CompareAndSwap statement",
                           "the latch of Tunnel.Close no longer has the shape the harness parks on")
-    d = os.path.join(vlib.BUILD, "c16_instr")
+    d = os.path.join(vlib.BUILD, "c16_instr" + vlib._repo_tag())
     os.makedirs(d, exist_ok=True)
     vlib.write_if_changed(os.path.join(d, "tunnel.go"), text)
-    ov = json.load(open(os.path.join(vlib.BUILD, "overlay_c16.json")))
+    ov = json.load(open(os.path.join(vlib.BUILD, "overlay_c16%s.json" % vlib._repo_tag())))
     ov["Replace"][src] = os.path.join(d, "tunnel.go")
-    ovp = os.path.join(vlib.BUILD, "overlay_c16i.json")
+    ovp = os.path.join(vlib.BUILD, "overlay_c16i%s.json" % vlib._repo_tag())
     with open(ovp, "w") as fh:
         json.dump(ov, fh, indent=1)
-    out = os.path.join(vlib.BUILD, "bin", "verif_c16i")
+    out = os.path.join(vlib.BUILD, "bin", "verif_c16i" + vlib._repo_tag())
     rc, so, se = vlib.sh(["go", "build", "-tags", vlib.GUARD, "-overlay", ovp, "-o", out, "./cmd/verif_c16"],
                          cwd=vlib.REPO, env=vlib.GOENV, timeout=900)
     if rc != 0:
